@@ -4,6 +4,7 @@ CONSTANTS
   Req <- R3
   Nested <- NAB
   InspOf <- IAB
+  Pool <- NoPool
   Own = TRUE
 CHECK_DEADLOCK FALSE
 INVARIANT RecvMutex
